@@ -79,6 +79,7 @@ CATALOGUE = {
     "CylindricalKernel_priors": lambda: K.CylindricalKernel(3, K.RBFKernel(), angular_weights_prior=_gamma(), alpha_prior=_gamma(), beta_prior=_gamma()),
     "StudentTLikelihood_priors": lambda: L.StudentTLikelihood(noise_prior=_gamma(), deg_free_prior=P.GammaPrior(4.0, 1.0)),
     "ArcKernel": lambda: K.ArcKernel(K.MaternKernel(nu=2.5), angle_prior=P.GammaPrior(0.5, 1), radius_prior=P.GammaPrior(3, 2), ard_num_dims=2),
+    "SharedConstraintObject": lambda: (lambda c: K.ScaleKernel(K.ProductKernel(K.RBFKernel(lengthscale_constraint=c), K.MaternKernel(nu=2.5, lengthscale_constraint=c))))(C.Interval(0.1, 2.0)),
     "ProductOfKernels": lambda: K.RBFKernel() * K.PeriodicKernel() + K.ScaleKernel(K.LinearKernel()),
     "GaussianLikelihood": lambda: L.GaussianLikelihood(noise_prior=_gamma()),
     "GaussianLikelihood_batch": lambda: L.GaussianLikelihood(batch_shape=torch.Size([3])),
@@ -132,9 +133,12 @@ def build(entry, dtype, applied=()):
 
 
 def params_of(module):
-    """[(full raw name, owner module, raw local name, public name)] for constrained parameters with a public setter."""
+    """[(full raw name, owner module, raw local name, public name)] for constrained parameters with a public setter.
+    Built from named_parameters() and the owner's registered constraint (not from named_parameters_and_constraints(),
+    whose consistency with them is itself checked in check_all)."""
     out = []
-    for name, param, constraint in sorted(module.named_parameters_and_constraints(), key=lambda t: t[0]):
+    for name, param in sorted(module.named_parameters(), key=lambda t: t[0]):
+        constraint = module.constraint_for_parameter_name(name)
         if constraint is None:
             continue
         if "." in name:
@@ -378,6 +382,21 @@ def check_all(out, i, module, ref, entry, dtype_name, where):
                 d = float((v1 - v0).abs().max())
                 if not d <= rtol_for(val.dtype) * sc:
                     out.violate("inverse_not_inverse", i, "%s.%s: transform(inverse_transform(v)) differs from v = transform(raw) by %.3g (scale %.3g)" % (entry, pub, d, sc), **cls)
+    # the three public ways of finding a parameter's constraint agree: the iterator, the lookup by (dotted) name
+    # from the root, and the constraint registered on the owning module
+    reported = {n: c for n, p, c in module.named_parameters_and_constraints()}
+    for name, owner, raw, pub in plist:
+        by_name = module.constraint_for_parameter_name(name)
+        on_owner = getattr(owner, raw + "_constraint", None)
+        if name not in reported or reported[name] is not by_name or by_name is not on_owner:
+            out.violate(
+                "constraint_lookup_inconsistent",
+                i,
+                "%s: named_parameters_and_constraints() reports %s for %s, constraint_for_parameter_name gives %s, the owner has %s"
+                % (entry, type(reported.get(name)).__name__, name, type(by_name).__name__, type(on_owner).__name__),
+                family=entry,
+                param=pub,
+            )
     # (v) prior closures read the current value
     for pname, pmod, prior, closure, setting in sorted(module.named_priors(), key=lambda t: t[0]):
         try:
